@@ -36,14 +36,14 @@ def run_one(patch, tier, only=None):
     wt = f"/tmp/mut_{name}_{os.getpid()}"
     out = {"patch": os.path.relpath(patch, VERIF), "results": {}}
     subprocess.run(["git", "-C", "/repo", "worktree", "remove", "--force", wt], stdout=subprocess.DEVNULL, stderr=subprocess.DEVNULL)
-    r = subprocess.run(["git", "-C", "/repo", "worktree", "add", "-q", "--detach", wt, "HEAD"], stdout=subprocess.PIPE, stderr=subprocess.STDOUT, text=True)
+    r = subprocess.run(["git", "-C", "/repo", "worktree", "add", "-q", "--detach", wt, "HEAD"], stdout=subprocess.PIPE, stderr=subprocess.STDOUT, text=True, errors="replace")
     if r.returncode != 0:
         out["error"] = r.stdout
         return out
     try:
-        r = subprocess.run(["git", "-C", wt, "apply", "--whitespace=nowarn", patch], stdout=subprocess.PIPE, stderr=subprocess.STDOUT, text=True)
+        r = subprocess.run(["git", "-C", wt, "apply", "--whitespace=nowarn", patch], stdout=subprocess.PIPE, stderr=subprocess.STDOUT, text=True, errors="replace")
         if r.returncode != 0:
-            r = subprocess.run(["patch", "-d", wt, "-p1", "-i", patch], stdout=subprocess.PIPE, stderr=subprocess.STDOUT, text=True)
+            r = subprocess.run(["patch", "-d", wt, "-p1", "-i", patch], stdout=subprocess.PIPE, stderr=subprocess.STDOUT, text=True, errors="replace")
             if r.returncode != 0:
                 out["error"] = "patch does not apply: " + r.stdout[-500:]
                 return out
@@ -51,7 +51,7 @@ def run_one(patch, tier, only=None):
             tmp = f"/tmp/mut_out_{name}_{pid}_{os.getpid()}"
             env = dict(os.environ, VERIF_REPO=wt, VERIF_EVIDENCE_DIR=tmp + "/evidence", VERIF_REPLAY_DIR=tmp + "/replays")
             t0 = time.time()
-            r = subprocess.run([os.path.join(VERIF, "bin", "check"), pid, "--tier", tier], env=env, stdout=subprocess.PIPE, stderr=subprocess.STDOUT, text=True)
+            r = subprocess.run([os.path.join(VERIF, "bin", "check"), pid, "--tier", tier], env=env, stdout=subprocess.PIPE, stderr=subprocess.STDOUT, text=True, errors="replace")
             sigs = re.findall(r"signature: (.*)", r.stdout)
             rc = r.returncode
             if rc == 1 and "VIOLATION property=" not in r.stdout:
